@@ -38,7 +38,60 @@ void FnEmitter::assign(const Instruction& I, const std::string& rhs) {
   body << "  " << lname[&I] << " = " << rhs << ";\n";
 }
 
+// typed lvalue for a GEP with a variable index ("" if not expressible)
+std::string FnEmitter::typedGep(const GEPOperator* G) {
+  {
+    bool ok = true;
+    Type* ST = G->getSourceElementType();
+    if (!ST->isSized() || T.DL.getTypeAllocSize(ST) == 0) ok = false;
+    for (gep_type_iterator GTI = gep_type_begin(G), E = gep_type_end(G); ok && GTI != E; ++GTI) {
+      Type* IT = GTI.getIndexedType();
+      if (!IT->isSized() || T.DL.getTypeAllocSize(IT) == 0) ok = false;
+      if (IT->isVectorTy()) ok = false;
+    }
+    if (ok) {
+      std::string e;
+      bool first = true;
+      for (gep_type_iterator GTI = gep_type_begin(G), E = gep_type_end(G); GTI != E; ++GTI) {
+        Value* idx = GTI.getOperand();
+        std::string ix;
+        if (auto* CI = dyn_cast<ConstantInt>(idx)) ix = std::to_string(CI->getSExtValue()) + "ll";
+        else ix = "(int64_t)" + T.sext(val(idx), idx->getType()->getIntegerBitWidth());
+        if (first) {
+          e = "((" + ty(ST) + "*)" + val(G->getPointerOperand()) + ")[" + ix + "]";
+          first = false;
+        } else if (GTI.getStructTypeOrNull()) {
+          e += ".f" + std::to_string(cast<ConstantInt>(idx)->getZExtValue());
+        } else {
+          e += ".a[" + ix + "]";
+        }
+      }
+      return e;
+    }
+  }
+  return "";
+}
+
+std::string FnEmitter::lvalue(const Value* P, Type* AT) {
+  // loads/stores through a variable-index GEP access the typed lvalue directly: CBMC then updates one
+  // array element ("with") instead of byte-updating the whole enclosing object
+  if (auto* G = dyn_cast<GEPOperator>(P))
+    if (!G->hasAllConstantIndices()) {
+      std::string e = typedGep(G);
+      if (!e.empty()) {
+        if (G->getResultElementType() == AT) return e;
+        return "*(" + ty(AT) + "*)&" + e;
+      }
+    }
+  return "*(" + ty(AT) + "*)" + val(P);
+}
+
 std::string FnEmitter::gepExpr(const GEPOperator* G) {
+  // GEPs with a variable index are emitted as typed member/element accesses; all-constant GEPs use byte offsets.
+  if (!G->hasAllConstantIndices()) {
+    std::string e = typedGep(G);
+    if (!e.empty()) return "((char*)&" + e + ")";
+  }
   std::string s = "(" + val(G->getPointerOperand());
   int64_t coff = 0;
   for (gep_type_iterator GTI = gep_type_begin(G), E = gep_type_end(G); GTI != E; ++GTI) {
@@ -266,7 +319,7 @@ void FnEmitter::emitInst(const Instruction& I) {
     if (L.isAtomic())
       body << "  VF_ATOMIC_LOAD(" << lname[&I] << ", " << ty(Ty) << ", " << p << ", " << orderName(L.getOrdering()) << ");\n";
     else
-      assign(I, "*(" + ty(Ty) + "*)" + p);
+      assign(I, lvalue(L.getPointerOperand(), Ty));
     return;
   }
   case Instruction::Store: {
@@ -277,7 +330,7 @@ void FnEmitter::emitInst(const Instruction& I) {
     if (S.isAtomic())
       body << "  VF_ATOMIC_STORE(" << ty(VT) << ", " << p << ", " << val(S.getValueOperand()) << ", " << orderName(S.getOrdering()) << ");\n";
     else
-      body << "  *(" << ty(VT) << "*)" << p << " = " << val(S.getValueOperand()) << ";\n";
+      body << "  " << lvalue(S.getPointerOperand(), VT) << " = " << val(S.getValueOperand()) << ";\n";
     return;
   }
   case Instruction::AtomicCmpXchg: {
